@@ -723,6 +723,9 @@ def journal_run(sink, case, sub_start, progress):
         confusion(sink, case['seed'], case['start'] + sub_start, case['count'] - sub_start, lambda i: progress(i - case['start']))
 
 
+STALL_S = 40  # journal silence after which a worker is sampled (gdb + CPU time) and restarted
+
+
 def shards(tier, seed):
     return [None]
 
@@ -740,7 +743,7 @@ def run_shard(sink, tier, seed, shard):  # noqa: C901
 
         def one(i, env=env):
             s = type(sink)('x', 'x', 0, 'x')
-            deaths = runner.run_journaled(s, 'vf.props.c16', dict(i=i, n=n, tier=tier, seed=seed, only_depth=(variant == 'plain' and tier == 'quick')), env=env, per_worker_timeout=2400)
+            deaths = runner.run_journaled(s, 'vf.props.c16', dict(i=i, n=n, tier=tier, seed=seed, only_depth=(variant == 'plain' and tier == 'quick')), env=env, per_worker_timeout=2400, stall_s=STALL_S)
             return s, deaths
 
         with ThreadPoolExecutor(n) as ex:
@@ -769,6 +772,17 @@ def run_shard(sink, tier, seed, shard):  # noqa: C901
                     where = dict(case, index=case['start'] + (d['sub'] or 0))
                 elif case.get('part') == 'depth':
                     mech = f'depth/{case.get("kind")}'
+                if d['rc'] == 'stalled':
+                    # a sub-step that normally takes milliseconds made no progress for STALL_S seconds; it is a hang of the engine only if the
+                    # worker burnt (most of) that time on a CPU and a thread sits inside the extension - otherwise the machine was starved
+                    cpu, window = d.get('stall_cpu') or (0.0, 0.0)
+                    if window and cpu >= 0.6 * window and 'optree::' in (d.get('gdb') or ''):
+                        sink.violation(f'hang/{mech}', 'an operation raises or returns: it never loops forever inside the extension', dict(where, variant=variant, cpu_seconds=cpu, window_seconds=window),
+                                       (d.get('gdb') or '')[-2500:])
+                    else:
+                        sink.notes.append(f'stall without a spinning engine frame in {where} (cpu {cpu}s of {window}s): inconclusive for that case')
+                        sink.count('inconclusive-stalls')
+                    continue
                 sink.violation(f'crash/{mech}/{d.get("signal") or d["rc"]}', 'no input may crash the interpreter', dict(where, variant=variant), d['stderr_tail'][-1800:])
         if variant == 'asan':
             for rep in sanlog.collect(log_path):
